@@ -10,7 +10,7 @@
 (***************************************************************************)
 EXTENDS TraceHll
 VARIABLE un
-U == INSTANCE HllUnion WITH UIds <- {}, LgMaxKs <- {}, UCoupons <- {}, Inputs <- {}
+U == INSTANCE HllUnion WITH UIds <- {}, LgMaxKs <- {}, UCoupons <- {}, Inputs <- {}, UBigs <- {}
 tuvars == <<obj, l, hist, blob, un>>
 SkUnchanged == UNCHANGED <<obj, hist, blob>>
 
@@ -20,14 +20,15 @@ UScalars(e, o) == /\ Chk("union-is_empty", e.empty = o.empty)
 UBoundsOK(r, o, hllmode) ==
   /\ Chk("C06:bounds", /\ r.lb[3] <= r.lb[2] /\ r.lb[2] <= r.lb[1] /\ r.lb[1] <= r.est
                        /\ r.est <= r.ub[1] /\ r.ub[1] <= r.ub[2] /\ r.ub[2] <= r.ub[3])
-  /\ LET retained == IF hllmode THEN NonZero(o) ELSE Cardinality(o.fed) IN
+  /\ LET retained == IF ~hllmode THEN Cardinality(o.fed)
+                     ELSE IF o.big THEN Cardinality({p[1] % (2^U!LgStar(o)) : p \in o.fed \cup o.sp}) ELSE NonZero(o) IN
      Chk("C06:lb>=retained", \A k \in 1..3 : r.lbF[k] >= retained)
   /\ Chk("C06:coupon-estimate", ~hllmode => LET n == Cardinality(o.fed) IN r.estF >= n /\ r.estF <= n + n \div 1000 + 1)
   /\ Chk("C06:empty-estimate", o.empty => r.estF = 0)
 
 TUBegin == TBegin /\ un' = <<>>
 TUNew == IsEvent("UNew") /\ LET e == Log[l] IN
-          /\ U!UNew(e.u, e.lgmaxk) /\ UScalars(e, un'[e.u]) /\ SkUnchanged
+          /\ U!UNew(e.u, e.lgmaxk, e.lgmaxk > DenseMaxLgK) /\ UScalars(e, un'[e.u]) /\ SkUnchanged
 TUUpdate == IsEvent("UUpdate") /\ LET e == Log[l]  sv == obj[e.src]  o == un[e.u]
                                       \* an empty HLL-mode input: did the implementation lower its precision? (left open by the statement)
                                       counted == IF sv.empty THEN sv.mode = HLL /\ sv.lgK < U!LgStar(o) /\ e.lgk = sv.lgK
@@ -54,11 +55,19 @@ TUResult == IsEvent("UResult") /\ LET e == Log[l]  o == un[e.u]  r == e.r  lg ==
           /\ Chk("result-lg_k", r.lgk = lg /\ r.lgkApi = lg)
           /\ Chk("result-is_empty", r.empty = o.empty)
           /\ IF r.cmode = HLL
-             THEN Chk("result-registers", /\ Len(r.regs) = 2^lg /\ \A s \in DOMAIN o.top : r.regs[s + 1] = o.top[s])
+             THEN IF Has(r, "nz")     \* sparse observation (result lg_k > 16)
+                  THEN Chk("result-registers", /\ o.big /\ Len(r.nz) = Cardinality(ToSet(r.nz))
+                                               /\ U!PairsMatch(ToSet(r.nz), o.fed \cup o.sp, lg))
+                  ELSE Chk("result-registers", /\ Len(r.regs) = 2^lg
+                                               /\ IF o.big THEN U!PairsMatch({<<x - 1, r.regs[x]>> : x \in {y \in DOMAIN r.regs : r.regs[y] > 0}}, o.fed \cup o.sp, lg)
+                                                  ELSE \A s \in DOMAIN o.top : r.regs[s + 1] = o.top[s])
              ELSE /\ Chk("result-coupon-mode-after-hll-input", o.hllLg = {})
                   /\ Chk("result-coupons", ToSet(r.coup) = o.fed /\ Len(r.coup) = Cardinality(o.fed))
           /\ Chk("ResultDef", U!ResultOK(o, [lgK |-> r.lgk, mode |-> r.cmode, empty |-> r.empty,
-                                             regs |-> IF r.cmode = HLL THEN [s \in 0..(Len(r.regs) - 1) |-> r.regs[s + 1]] ELSE <<>>,
+                                             regs |-> IF r.cmode = HLL /\ ~o.big THEN [s \in 0..(Len(r.regs) - 1) |-> r.regs[s + 1]] ELSE <<>>,
+                                             nz |-> IF r.cmode # HLL \/ ~o.big THEN {}
+                                                    ELSE IF Has(r, "nz") THEN ToSet(r.nz)
+                                                    ELSE {<<x - 1, r.regs[x]>> : x \in {y \in DOMAIN r.regs : r.regs[y] > 0}},
                                              coup |-> IF r.cmode = HLL THEN {} ELSE ToSet(r.coup)]))
           /\ UBoundsOK(r, o, r.cmode = HLL)
           /\ SkUnchanged
@@ -67,7 +76,7 @@ TUResult == IsEvent("UResult") /\ LET e == Log[l]  o == un[e.u]  r == e.r  lg ==
 TUCompare == IsEvent("UCompare") /\ LET e == Log[l] IN
           /\ \A n, k \in DOMAIN e.objs : n < k =>
                LET a == e.objs[n]  b == e.objs[k]  oa == un[a.u]  ob == un[b.u] IN
-               (U!LgStar(oa) = U!LgStar(ob) /\ oa.top = ob.top /\ oa.fed = ob.fed /\ oa.empty = ob.empty
+               (U!LgStar(oa) = U!LgStar(ob) /\ oa.top = ob.top /\ oa.fed = ob.fed /\ oa.sp = ob.sp /\ oa.big = ob.big /\ oa.empty = ob.empty
                   /\ (oa.hllLg = {}) = (ob.hllLg = {}) /\ Class(a.mode) = Class(b.mode))
                  => /\ Chk("order-independent-estimate", a.cest = b.cest)
                     /\ Chk("order-independent-result-estimate", a.rcest = b.rcest)
